@@ -171,7 +171,7 @@ def gen_scripts(seed, thorough):
                     continue
                 k += 1
                 hs = None
-                if typ in cx.VALID_TYPES and rnd.random() < 0.3:
+                if typ in cx.VALID_TYPES and typ != 62 and rnd.random() < 0.3:   # (62 has the built-in ackHandler)
                     hs = [dict(typ=typ, mode=rnd.choice(["all", "none", "part", "panic"]), k=3)]
                 b = B("c08-type-%d-%s-v%d" % (typ, plk, version), version, handlers=hs)
                 pl = dict(k="conn", status=0) if plk == "conn" else dict(k="tag", len=0, tag=0)
@@ -340,8 +340,11 @@ def run(tier, seed, replay=None):
         hostile = []
     else:
         scripts = gen_scripts(seed, thorough)
-        if thorough:
-            scripts += gen_scripts(seed + 17, thorough)[:]
+        for k in range(1, 4 if thorough else 2):      # the same families with other random choices (ids, sizes, APIs, handlers, plans)
+            more = gen_scripts(seed + 17 * k, thorough)
+            for sc in more:
+                sc["id"] += "-r%d" % k
+            scripts += more
         hostile = hostile_scripts()
     classes = cx.classify_first(scripts)
     go, logs = cc.run_go(exe, scripts, shards=8)
